@@ -558,6 +558,9 @@ def gen_ensemble(draw, tier="quick"):
     uexp = draw(st.sampled_from([0, 0, 0, -9, -12, 8]))
     spec["var"] = float(spec["var"] * 10.0**uexp)
     spec["nugget"] = float(spec["nugget"] * 10.0**uexp)
+    volumes = draw(st.sampled_from([None, None, "scalar", "array"]))
+    if volumes and draw(st.booleans()):
+        spec["nugget"] = float(draw(st.sampled_from([0.8, 2.0])) * spec["var"])
     return {
         "spec": spec, "pos": pos, "mode_no": draw(st.sampled_from([64, 200] if path == "mcmc" else [64, 500, 1000])),
         "mesh": draw(st.sampled_from(["unstructured", "unstructured", "structured"])),
@@ -567,6 +570,8 @@ def gen_ensemble(draw, tier="quick"):
         # the documented ensemble pattern: positions given once, further realisations drawn with srf(seed=...) on the stored positions -
         # here after the model of the object was re-oriented in place
         "pattern": draw(st.sampled_from(["pass_pos", "pass_pos", "stored_after_reorient", "after_inplace_rescale"] if dim > 1 else ["pass_pos", "pass_pos", "after_inplace_rescale"])),
+        # element volumes handed to the default upscaling "no_scaling" (documented: the variance is not changed)
+        "volumes": volumes,
     }
 
 
@@ -605,7 +610,8 @@ def check_ensemble(case, rec):
                 srf.structured(axes) if axes is not None else srf(pts)
                 srf.model.anis = spec["anis"]
                 srf.model.angles = spec["angles"]
-            elif case.get("pattern") == "after_inplace_rescale":
+            elif case.get("pattern") == "after_inplace_rescale" and cls not in gens.TPL:
+                # (truncated power law models are left out: their variance follows the rescaled length, so the target changes too)
                 # the object is built and used with another rescale factor (another convention for the length scale), which is then
                 # assigned in place: only the rescale factor changes
                 r1 = float(spec.get("rescale") or model.rescale)
@@ -616,13 +622,18 @@ def check_ensemble(case, rec):
             else:
                 srf = gs.SRF(model, mean=case["mean"], mode_no=N, seed=0)
             F = np.empty((S, n))
+            vkw = {}
+            if case.get("volumes") == "scalar":
+                vkw["point_volumes"] = 0.25
+            elif case.get("volumes") == "array":
+                vkw["point_volumes"] = np.linspace(0.0, 2.0, n)
             for r, s in enumerate(_seeds(seed, S)):
                 if stored:
-                    F[r] = np.reshape(srf(seed=int(s)), -1)
+                    F[r] = np.reshape(srf(seed=int(s), **vkw), -1)
                 elif axes is not None:
-                    F[r] = srf.structured(axes, seed=int(s)).reshape(-1)
+                    F[r] = srf.structured(axes, seed=int(s), **vkw).reshape(-1)
                 else:
-                    F[r] = srf(pts, seed=int(s))
+                    F[r] = srf(pts, seed=int(s), **vkw)
         require(bool(np.all(np.isfinite(F))), "non-finite field values", dict(tags, kind="field_nonfinite"))
         st_ = Stat()
         mu = F.mean(axis=0)
@@ -642,6 +653,8 @@ def check_ensemble(case, rec):
         rec.label("ensemble_on_stored_positions_after_reorientation")
     if case.get("pattern") == "after_inplace_rescale":
         rec.label("ensemble_after_inplace_rescale")
+    if case.get("volumes"):
+        rec.label("point_volumes_" + case["volumes"] + ("_nugget" if spec["nugget"] > 0 else ""))
     _confirm(run, case, rec, tags, "srf_ensemble")
     ls = model.len_rescaled
     lag_ok = bool(np.any((dist > 0.05 * ls) & (dist < 5 * ls)))
